@@ -88,7 +88,7 @@ def _scan_place(F, f, place, how, span, out):
     # the 4th component is "new" only for THE constructor of the owning struct (an inherent, receiver-less `new` of that type); any
     # other function that merely carries the name (an inner fn, a method of another type, a trait method) is an ordinary writer
     genuine = f.name == "new" and f.self_struct == owner and not f.impl_trait
-    out.setdefault((owner, e["name"]), []).append((f.label, kind, span, f.name if (genuine or f.name != "new") else "new (not the constructor)"))
+    out.setdefault((owner, e["name"]), []).append((f.label, kind, span, f.name if (genuine or f.name != "new") else "new (not the constructor)", f.path))
 
 
 def _mentions_crate_adt(F, ty):
